@@ -28,16 +28,14 @@ prop('C13', not_applicable='the observable is resident set size of a running pro
 PCHAIN = 'Trusted: CBMC 6.11 + SAT/SMT back ends, goto-cc C semantics (LP64 little-endian), the weaver strip-check, assumed libc/POSIX contracts listed in the evidence. '
 
 prop('C01', level='model_checking',
-     text='Round-trip is cut at the stage boundaries: each codec stage pair (RLE1 collect/emit, MTF/zero-run, table build/decode) is checked on '
-          'the real functions at small bounded sizes (labelled bounded) and the block-ordering glue between stages is proved with contracts.',
+     text='Round-trip is cut at stage boundaries. Built: the RLE1 encoder stage (real collect() one-step conformance from every saved state, final flush) and decoder stage (real emit() one call from every saved state) against the same run-length rule, bounded; the block-ordering glue between stages (position chaining, reorder, xwrite) proved. Not built: BWT, MTF/zero-run, prefix coding stages.',
      note=PCHAIN + 'Whole-pipeline inverse for unbounded input is not one contract; blocks beyond the bounds, divbwt and transmit/retrieve bit agreement are undecided.',
-     technique='CBMC contracts on the ordering glue + bounded CBMC checks of real codec stage functions', design_ref='§4 C01',
+     technique='bounded CBMC checks of the real RLE stage functions against the format rule + contracts on the ordering glue',
      undecided=['whole-pipeline inverse for blocks beyond the stage bounds', 'divbwt() (block sorting) and do_mtf(): no obligation built', 'transmit()/retrieve() bit-level agreement', 'generate_prefix_code() clustering'])
 prop('C02', level='proof',
-     text='Stream framing (header digit, trailer bytes, combined CRC recurrence, block order) is proved on write_header/write_trailer/do_reorder/combine_crc; '
-          'per-block field facts (dummy table Kraft sum for every alphabet size, padding, selector bound) as lemmas; capacity via bounded collect steps.',
+     text='Framing proved (header digit, trailer bytes, combined-CRC recurrence, block order). Per-block facts as lemmas on code extracted verbatim from encode.c: the dummy second table is complete with lengths 1..20 for EVERY alphabet size 3..258; padding gives whole bytes with <= 3 delta steps and <= 1 extra selector (<= 18002 selectors); the first-length padding keeps the start value in 1..20; selector MTF trick correct for all 720 lists. Block capacity from the collect() step instances and the final-flush section (bounded).',
      note=PCHAIN + 'libbz2 is not linked into the verifier; per-block table completeness for multi-table blocks only bounded.',
-     technique='CBMC function contracts + exhaustive lemma harnesses on the real encoder code', design_ref='§4 C02',
+     technique='CBMC function contracts + exhaustive lemma harnesses on sections of the real encoder extracted on every run',
      undecided=['libbz2 decoding of the produced stream (needs C01 in full)', 'completeness and 1..20 range of multi-table codes (assign_codes/package_merge: symbolic run exhausts 16 GB)', 'bwt_idx < nblock (divbwt not covered)', 'transmit() bit layout beyond the first-length section'])
 prop('C03', level='proof',
      text='Determinism is decomposed into scheduler-free contracts: xread always fills a chunk, xwrite writes every byte in order, chunk n gets position (n,0), '
@@ -52,16 +50,14 @@ prop('C04', level='model_checking',
      technique='bounded CBMC checks of real collect() from enumerated start states + contracts on the glue', design_ref='§4 C04',
      undecided=['composition of n one-byte steps into one n-byte call beyond 3 bytes (paper induction)', 'encode() final flush of a pending run (not extracted yet)'])
 prop('C05', level='proof',
-     text='parse() is proved against a reference stream automaton (unbounded input); do_parse/do_reorder error routing, size and CRC checks are proved; the code-length '
-          'delta tables are checked against strict step-by-step decoding as an exhaustive lemma; make_tree Kraft check by complete unwinding; entropy decoding bounded.',
+     text='parse() is proved against a reference stream automaton for unbounded input (magic, CRC fields, trailing-garbage rule, EOF); do_parse/do_reorder error routing, declared-size and CRC checks proved per task; code-length deltas, selector codes, selector bound and the end-of-block checks (empty block, primary index) are lemmas / bounded sections of the real retrieve(); make_tree Kraft test bounded (alphabets <= 6/12); emit() ERR_RUNLEN and byte-exactness per call from every saved state (bounded).',
      note=PCHAIN + 'retrieve()/emit() byte-exactness beyond the bounds is undecided.',
-     technique='CBMC function/loop contracts with ghost reference automaton + exhaustive table lemmas', design_ref='§4 C05',
+     technique='CBMC function/loop contracts with a ghost reference automaton + exhaustive table lemmas + bounded sections of the retrieve()/emit() coroutines',
      undecided=['retrieve() prefix decoding and run expansion beyond the end-of-block section', 'make_tree() table construction after the Kraft test; Kraft test for alphabets > 12', 'decode() (inverse BWT): no obligation', 'mtf_one(): no discharged obligation (SAT and z3 time out)', 'ERR_OVERFLOW check at real block sizes'])
 prop('C06', level='model_checking',
-     text='Accepting direction of the parse() contract (every legal header/trailer sequence at any bit offset), make_tree on every complete length vector, '
-          'mtf_one fast path on every layout, selectors clamp; remaining decoding stages bounded.',
+     text='Accepting direction of the parse() contract (every legal header/trailer sequence at any bit offset, proved); every 6-bit delta and selector window accepted exactly when the strict format accepts it (lemmas); surplus selectors up to 32767 stored in bounds and cut to 18001; complete tables accepted (Kraft test, bounded alphabets); emit() per call from every saved state (bounded). Prefix decoding, inverse MTF and inverse BWT are NOT covered, hence model_checking, not proof.',
      note=PCHAIN + 'mtf_one general path, decode(), emit(), retrieve() only bounded.',
-     technique='CBMC contracts + complete-unwind harnesses + bounded stage checks', design_ref='§4 C06',
+     technique='CBMC contract on parse() + exhaustive lemmas + bounded section checks of retrieve()/make_tree()/emit()',
      undecided=['retrieve() decoding agreement with the canonical code (start/base/count/perm)', 'mtf_one() both paths', 'decode() incl. randomised blocks', 'full-size behaviours (primary index 899999, 900000-byte blocks)'])
 prop('C07', level='proof',
      text='Proves the path from every detected error to the process outcome: every error status reaches a fail* reporter, reporters never return, bailout on the '
@@ -76,10 +72,9 @@ prop('C08', level='proof',
      technique='CBMC built-in safety checks on all contract harnesses', design_ref='§4 C08',
      undecided=['divbwt() sort stacks and recursion budget', 'retrieve() fast path (32-word precondition) and tt_limit check at real sizes', 'mtf_one() rebuild path', 'do_mtf(), generate_prefix_code() EM loops, transmit()', 'use-after-free across threads'])
 prop('C09', level='proof',
-     text='bits_init/attach/detach position arithmetic proved (absolute bit position preserved, pos injective), multi-buffer emission ordering proved, '
-          'set_memory_constraints proved; emit() split invariance bounded.',
+     text='bits_init proved; attach()/detach() preserve the absolute bit position and yield the canonical position independent of block boundaries (bounded: <= 2 queued input blocks); position encoding injective and order-preserving (lemma); multi-buffer emission ordering (do_emit/do_reorder) proved; emit() suspend/resume: one call from every saved state equals the un-RLE rule on the logical state (bounded), so cutting the output anywhere cannot change bytes or CRC; set_memory_constraints proved in work().',
      note=PCHAIN + 'retrieve() NEED suspend/resume relational property is undecided (coroutine structure).',
-     technique='CBMC contracts on expand.c glue + bounded emit split check', design_ref='§4 C09',
+     technique='CBMC contracts on expand.c glue + per-state bounded checks of the resumable emit()',
      undecided=['retrieve() NEED() suspend/resume at arbitrary word boundaries (coroutine)', 'emit() split invariance is per call; the induction over calls is a paper step', 'attach()/detach() with more than two queued input blocks'])
 prop('C10', level='proof',
      text='Safety statement proved on do_parse/do_reorder/do_scan/do_retrieve: a buffer reaches the sink only if its base equals a position at which the sequential '
@@ -88,10 +83,9 @@ prop('C10', level='proof',
      technique='CBMC monitor-invariant contracts on expand.c task bodies', design_ref='§4 C10',
      undecided=['sequential determinism of retrieve() from equal bit positions (assumed)', 'order_q / unord_q occupancy (assumed where the code asserts it)'])
 prop('C11', level='proof',
-     text='Safety half: monitor invariants (unit/slot conservation, queue occupancy below capacity, order) proved per task body and callback for every '
-          'interleaving via havoc-at-lock; heap/deque primitives proved. Termination/deadlock-freedom NOT decided.',
+     text='Safety half: per-task monitor invariants (unit/slot conservation, queue occupancy below capacity at every enqueue, order) for every interleaving via havoc-at-lock in compress.c and expand.c; reader/writer/worker thread loops by one generic iteration (input-slot conservation, FIFO output queue, a task runs only if ready under the same lock acquisition, wake-up rule); heap primitives bounded. Termination/deadlock-freedom NOT decided; order_q/unord_q occupancy assumed.',
      note=PCHAIN + 'liveness is outside contract-based verification; stated undecided.',
-     technique='Owicki-Gries style monitor invariants as CBMC contracts on the real task bodies', design_ref='§4 C11',
+     technique='Owicki-Gries style monitor invariants as CBMC assertions on the real task bodies and thread procedures',
      undecided=['termination / deadlock-freedom (liveness)', 'order_q and unord_q occupancy bounds (assumed where the code asserts them)', 'heap order of the priority queues (up_heap/down_heap bodies): no obligation; callers use the stub contract "old head handed out at root[size]"'])
 prop('C12', level='proof',
      text='Lock discipline for every object of static storage duration: (1) accessor macros woven after each shared variable assert at every textual use (including uses inside the queue macros) '
@@ -102,12 +96,10 @@ prop('C12', level='proof',
      technique='woven accessor assertions under CBMC monitor models + goto-cc symbol-table scan', design_ref='§4 C12, §9',
      undecided=['heap objects handed between threads (ownership transfer through the queues)', 'libc internals', 'eof in expand.c'])
 prop('C14', level='proof',
-     text='Lemma harnesses prove for every bit history that mini_dfa implements the longest-border (KMP) automaton of the '
-          'literal pattern 0x314159265359 and that big_dfa is its 8-step composition with absorbing ACCEPT (all 49x256 '
-          'entries); the scan() routine itself is checked against a naive matcher on a bounded window (labelled bounded).',
+     text='Lemma harnesses prove for every bit history that mini_dfa implements the longest-border (KMP) automaton of the literal pattern 0x314159265359 and that big_dfa is its 8-step composition with absorbing ACCEPT (all 49x256 entries); the scan() routine is checked against a naive matcher on windows of 84-127 symbolic bits with symbolic skip (bounded), including that backtracking into a word always ends in that word.',
      note=PCHAIN + 'the induction over bit histories that lifts the step lemma to all streams is a '
           'paper argument; scan() word loop only bounded (its loop shares a cycle with goto again, CBMC loop contracts cannot attach).',
-     technique='CBMC lemma harnesses over scantab.h (exhaustive, loop-free after constant unwinding) + bounded check of scan()',
+     technique='CBMC lemma harnesses over scantab.h (exhaustive) + bounded check of scan() against a naive matcher',
      design_ref='§4 C14',
      undecided=['scan() beyond the stated window bound', 'the unwinding assertion of the goto-again cycle is replaced by the woven no-second-backtrack assertion'],
      assumptions=['induction principle over bit histories (paper step)'])
@@ -124,19 +116,18 @@ prop('C16', level='proof',
      technique='CBMC contracts over main.c/signals.c with POSIX stubs and ghost file-system state', design_ref='§4 C16',
      undecided=['signal delivery inside libc calls (assumed atomic w.r.t. the ghost file-system state)', 'operand names longer than the bound (2 characters in the loop harness, 7 in the per-function harnesses)'])
 prop('C17', level='model_checking',
-     text='input_init admission rules, suffix_xform rules (bounded name length), output_init O_EXCL/mode, output_regf_uninit metadata order, removal rule, exit status.',
+     text='input_init admission rules, suffix_xform rules, output_init O_EXCL/mode/naming, output_regf_uninit metadata order, removal rule and exit status, each against the documented behaviour with every syscall outcome symbolic; operand names are bounded (<= 7 characters, which covers every suffix including whole-name-is-suffix), hence model_checking.',
      note=PCHAIN + 'string lengths bounded; POSIX O_EXCL semantics assumed.',
-     technique='CBMC contracts over main.c with POSIX stubs', design_ref='§4 C17',
+     technique='CBMC harnesses over main.c with POSIX stubs returning every outcome; bounded name length',
      undecided=['operand names longer than 7 characters', 'POSIX O_EXCL semantics (assumed)'])
 prop('C18', level='proof',
-     text='Per-run reset: primary_thread prologue + init() give canonical scheduler state from any terminal state; terminal predicate follows from invariant; main loop frame.',
-     note=PCHAIN, technique='CBMC contracts on init()/primary_thread/main loop', design_ref='§4 C18',
+     text='Per-run reset: primary_thread() resets eof and all three counters before init() and before any thread exists, whatever the previous run left; compress/expand init() give canonical scheduler state from any terminal state; the terminal predicate follows from the monitor invariant; main() loop body from an arbitrary between-operands state re-establishes it (no option changes, nothing tracked, signals unblocked), exit status 4 iff warned.',
+     note=PCHAIN, technique='CBMC harnesses on primary_thread/init()/main loop body (inductive step over operands)',
      undecided=['uninit() assertions follow from the terminal predicate (lemma) but uninit() bodies are not run', 'equality of outputs combined vs separate is argued from the per-operand reset, not checked relationally'])
 prop('C19', level='proof',
-     text='work() sniffing: non-header input with -cdf to stdout writes exactly the bytes read then copies; header input goes to expansion; copy pipeline forwards each '
-          'buffer once in order.',
+     text='work() sniffing proved: non-header input with -cdf to stdout writes exactly the 0-4 bytes read, then copies; header input goes to expansion. Copy pipeline: callbacks forward each buffer whole and once through the FIFO output queue, slot accounting inside the monitors, the copy ends only when end of input was seen and nothing is in flight; xread/xwrite loop contracts make fragmentation irrelevant.',
      note=PCHAIN + 'termination of the copy is liveness, undecided.',
-     technique='CBMC contracts on work()/copy callbacks/xread/xwrite', design_ref='§4 C19',
+     technique='CBMC contracts on work()/xread/xwrite + monitor harnesses of the copy callbacks and I/O threads',
      undecided=['termination of the copy (liveness)', 'copy() body itself (set-up of the pseudo process): no obligation'])
 prop('C20', level='model_checking',
      text='assign_codes/package_merge on the real code for small alphabets with symbolic frequencies compared with an enumerated optimum (bounded); single-table dummy '
@@ -283,8 +274,11 @@ def all_obligations():
              assumed=['output array stands in with 64 entries (<= 21 symbols are produced); tt_limit is compared, never dereferenced', 'the retriever state is a static harness object (a malloc()ed 60 KB state makes every access a byte extract): free() of it is not checked here']))
     # ---------------- decode.c emit(): one call from every saved state (C05 O5.7, C06 O6.5, C09 O9.2, C15 O15.3)
     for st in range(6):
-        for rest in (0, 1, 2, 3):
-            A(Ob(name=f'decode.emit_step.S{st}R{rest}', props=['C05', 'C06', 'C09', 'C15', 'C08'], kind='bounded', tier='quick' if rest <= 2 else 'thorough',
+        for rest in (0, 1, 2, 3, 4):
+            if rest == 4 and st != 0:
+                continue
+            # S5R3 is in the quick tier: it is the shortest way into the main loop's "three equal bytes written, fourth pending" suspension
+            A(Ob(name=f'decode.emit_step.S{st}R{rest}', props=['C05', 'C06', 'C09', 'C15', 'C08'], kind='bounded', tier='quick' if (rest <= 2 or (st == 5 and rest == 3)) else 'thorough',
                  harness='h_emit.c', entry='h_emit_step', extra_srcs=['src/crctab.c'], defines={'EMIT_S': str(st), 'EMIT_REST': str(rest)}, solver='cadical',
                  bound=f'resumed in saved state {st} with {rest} run-length-encoded byte(s) still unfetched; byte values 0..5 (so repeat counts <= 5), pending byte, run byte, '
                        'running CRC and output buffer size 1..' + str(rest + 14) + ' symbolic',
